@@ -33,7 +33,7 @@ def check(run, repo, tier):
   # helper keep their place
   import os
   _HERE = os.path.dirname(os.path.abspath(__file__))
-  decide(run, repo, [r1_gateway, r2_dispatch, r3_change_capture, r4_flush, r5_flush_complete, r6_interpreter, r7_stored_writers, r8_private_excluded, r9_presence, r10_update_flush],
+  decide(run, repo, [r1_gateway, r2_dispatch, r3_change_capture, r4_flush, r5_flush_complete, r6_interpreter, r7_stored_writers, r8_private_excluded, r9_presence, r10_update_flush, r11_add_loads_all],
          anchors_of(os.path.join(_HERE, "c02.py"), os.path.join(_HERE, "_h_E.py"), os.path.join(_HERE, "../events.py")),
          more_anchors=_role_anchors)
 
@@ -847,6 +847,71 @@ def r10_update_flush(run, w):
     raise AnalysisError(unfollowed[0])
 
 
+
+def r11_add_loads_all(run, w):
+  """The stored BulkAddRecord carries every value the action was given; the engine must load
+  every one of them, or a replay of the stored action sets cells the engine never set."""
+  R11 = run.rule("C02-R11", "DocActions.BulkAddRecord loads every supplied column value into the "
+                 "engine (what the stored action carries is what the engine holds)", floor=2)
+  fn = w.fn("docactions.DocActions.BulkAddRecord")
+  ps = fn.fi.params()
+  if len(ps) < 4:
+    raise AnalysisError("BulkAddRecord: unexpected signature %s" % ps)
+  p_vals = ps[3]
+  du = DefUse(fn)
+  calls = [(n, c) for (n, c, nm) in fn.calls() if nm is not None and nm.endswith(".add_records")
+           and not nm.endswith("summary.add_records")]
+  if len(calls) != 1:
+    raise AnalysisError("BulkAddRecord: expected one call of Engine.add_records, found %d"
+                        % len(calls))
+  (n, c) = calls[0]
+  tgt = w.fn("engine.Engine.add_records")
+  tps = tgt.fi.params()[1:]
+  arg = None
+  if len(c.args) >= 3:
+    arg = c.args[2]
+  for k in c.keywords:
+    if len(tps) >= 3 and k.arg == tps[2]:
+      arg = k.value
+  if arg is None:
+    raise AnalysisError("BulkAddRecord: cannot bind the values argument of add_records")
+  whole = du.denotes(arg, lambda e: isinstance(e, ast.Name) and e.id == p_vals and
+                     not du.defs.get(p_vals))
+  filtered = False
+  if not whole and isinstance(arg, ast.Name):
+    # a local dict filled under a condition, or a filtering comprehension over the parameter
+    for nid in du.muts.get(arg.id, ()):
+      st = fn.cfg.nodes[nid].stmt
+      guards = [m for m in fn.cfg.nodes if m.kind == "if" and
+                any(st is y for b in m.stmt.body + m.stmt.orelse for y in ast.walk(b))]
+      filtered = filtered or bool(guards)
+    for v in (du.values_of(arg.id) or []):
+      if isinstance(v, ast.DictComp) and v.generators and v.generators[0].ifs and \
+          p_vals in text(v.generators[0].iter):
+        filtered = True
+  if not whole and not filtered:
+    raise AnalysisError("BulkAddRecord: cannot relate the values handed to add_records (%s) to "
+                        "the action's column values" % short(arg))
+  run.ob(R11, fn.qualname, "self._engine.add_records(table_id, row_ids, <the action's values>)",
+         "the engine is given all the column values of the action, not a subset", whole,
+         fi=fn.fi, node=c, witness=None if whole else "the values are filtered before loading")
+  # add_records stores each of them: the loop over the values stores unconditionally
+  vp = tps[2] if len(tps) >= 3 else None
+  loops = [m.stmt for m in tgt.cfg.nodes if m.kind == "for" and isinstance(m.stmt.iter, ast.Call)
+           and isinstance(m.stmt.iter.func, ast.Attribute) and m.stmt.iter.func.attr == "items"
+           and text(m.stmt.iter.func.value) == vp]
+  if len(loops) != 1:
+    raise AnalysisError("add_records: the loop over the supplied column values was not found")
+  lp = loops[0]
+  sets = [x for x in ast.walk(lp) if isinstance(x, ast.Call) and isinstance(x.func, ast.Attribute)
+          and x.func.attr == "set" and len(x.args) == 2]
+  cond = [x for x in ast.walk(lp) if isinstance(x, (ast.If, ast.IfExp, ast.Continue, ast.Break))]
+  if not sets:
+    raise AnalysisError("add_records: no column.set(row, value) in the loop over the values")
+  run.ob(R11, tgt.qualname, "for col_id, values in column_values.items(): column.set(row, value)",
+         "every supplied column is stored, for every row, unconditionally", not cond,
+         fi=tgt.fi, node=lp)
+
 D = "sandbox/grist/docactions.py"
 U = "sandbox/grist/useractions.py"
 EN = "sandbox/grist/engine.py"
@@ -929,4 +994,9 @@ VARIANTS = [
    "          and (private or not c.is_private())\n", "", "C02-R8"),
   ("present-after-setdefault", "sandbox/grist/action_summary.py",
    "      t._rows_present_after[r] = True", "      t._rows_present_after.setdefault(r, True)", "C02-R9"),
+  ("add-loads-data-columns-only", D, "    self._engine.add_records(table_id, row_ids, column_values)\n",
+   "    self._engine.add_records(table_id, row_ids, {c: v for c, v in column_values.items() if not table.get_column(c).is_formula()})\n".replace("self._engine.add_records(table_id, row_ids, {", "data_values = {").replace("})\n", "}\n    self._engine.add_records(table_id, row_ids, data_values)\n"),
+   "C02-R11"),
+  ("add-records-skips-falsy-columns", EN, "    for col_id, values in column_values.items():\n      column = table.get_column(col_id)\n      column.growto(growto_size)",
+   "    for col_id, values in column_values.items():\n      if not any(values):\n        continue\n      column = table.get_column(col_id)\n      column.growto(growto_size)", "C02-R11"),
 ]
